@@ -478,7 +478,7 @@ def units(tier):
         U.append(('h_fuse_rejects', sym, dict(sym=sym)))
         for (nd, axes, perm) in [(5, ((0, 1), (2, 3, 4)), (1, 0)), (5, ((0, 1, 2), (3, 4)), (1, 0)), (5, ((0, 1), 2, (3, 4)), (2, 0, 1)),
                                  (4, ((0, 1), (2, 3)), (1, 0)), (4, (0, (1, 2, 3)), (1, 0))]:
-            for lt in (1,) + ((2,) if th and nsym_le1(sym) else ()):
+            for lt in (1,):                  # (five symbolic legs: two blocks already cost > 1 h per unit)
                 for which in ('all', 0):
                     U.append(('h_unfuse_lazy', f"{sym},nd={nd},axes={axes},perm={perm},lt={lt},which={which}",
                               dict(sym=sym, nd=nd, lt=lt, axes=axes, perm=perm, which=which)))
